@@ -22,8 +22,14 @@ def _build():
     return dbg, rel
 
 
+def _probe():
+    # the no-libc executable on the shipped global allocator (shared with C04); here only its `forkcheck` mode is used
+    return vlib.build_nolibc("probes/alloc_probe", "alloc_probe", "static", True) + "/alloc_probe"
+
+
 def setup():
     _build()
+    _probe()
     syslog.sysmon_bin()
 
 
@@ -32,7 +38,8 @@ RULE = ("seeded histories of malloc/calloc/realloc/free (1000-3000 ops quick, up
         "grow/churn/drain phases and free-everything sweeps in address/reverse/fifo/lifo/alternate/random order), each run in its own "
         "process without refusal, with ~24-40 sampled refusal windows (single calls and runs of 2-60 calls) and, for short histories, "
         "once per op index with the refusal at exactly that call; plus trim-heavy histories (64 KiB-8 MiB blocks, in-place shrinks and "
-        "frees of the block next to top) under sysmon with mremap and/or munmap failing throughout or at sampled calls; distinct = (operation, size class, alignment class, path taken "
+        "frees of the block next to top) under sysmon with mremap and/or munmap failing throughout or at sampled calls; three fork "
+        "steps at seeded op indices in every plain and refusal history (child scribbles over its heap, parent re-verifies); distinct = (operation, size class, alignment class, path taken "
         "classified from verif_stats deltas, refused or not) cells plus phases/styles/profiles")
 
 
@@ -87,9 +94,31 @@ def run(ck, replay=None):
                                    "style=%d" % (j % 5), "k=1"], timeout=900))
             labels.append("valgrind release history %d" % j)
             nvg += 1
+    # fork oracle on the global allocator (alloc_probe forkcheck <seed> <blocks> <rounds>)
+    probe = _probe()
+    for j in range(6 if quick else 32):
+        jobs.append(dict(argv=[probe, "forkcheck", str(ck.seed % 1_000_003 * 7 + j), str(150 + 90 * (j % 4)), "4"], timeout=600))
+        labels.append("forkcheck global allocator %d" % j)
     res = vlib.run_parallel(jobs, nproc=vlib.NCPU + 4)
     maxlive = 0
     for lab, r in zip(labels, res):
+        if lab.startswith("forkcheck"):
+            rows = [l.split() for l in r["out"].splitlines() if l.startswith("F ")]
+            if r["timed_out"] or r["rc"] != 0 or not rows:
+                if r["rc"] is not None and r["rc"] < 0:
+                    ck.violation("C03/fork/global-allocator/probe-killed-by-signal", {"argv": r["argv"], "signal": -r["rc"], "out": r["out"][-300:]})
+                else:
+                    ck.note_inconclusive("%s: rc=%s out=%s" % (lab, r["rc"], (r["out"] + r["err"])[-200:]))
+                continue
+            for row in rows:
+                ck.add_eval(int(row[2]))
+                ck.count("fork_steps_global_allocator")
+                ck.count("live_blocks_verified_after_a_forked_child", int(row[2]))
+                if int(row[3]) >= 0:
+                    ck.violation("C03/fork/global-allocator/live-block-changed-by-forked-child",
+                                 {"argv": r["argv"], "round": int(row[1]), "blocks": int(row[2]), "first_changed_block": int(row[3]), "offset": int(row[4])})
+            ck.note_distinct("fork-step/global-allocator")
+            continue
         if lab.startswith("valgrind"):
             if r["rc"] == 97:
                 ck.violation("C03/valgrind/invalid-access", {"stderr": r["err"][-3000:], "argv": r["argv"]})
@@ -102,6 +131,13 @@ def run(ck, replay=None):
         for m in re.finditer(r"^##MAXLIVE (\d+)", r["out"], re.M):
             maxlive = max(maxlive, int(m.group(1)))
     ck.extra["max_live_blocks"] = maxlive
+    # note, not a verdict: which flags anonymous mmaps carried in the traced histories
+    flags = {k.rsplit("_", 1)[1]: v for k, v in ck.counters.items() if k.startswith("traced_anonymous_mmap_flags_")}
+    ck.extra["traced_anonymous_mmap_flags"] = flags
+    odd = sorted(f for f in flags if f not in ("0x22", "0x32", "0x20022", "0x4022"))  # harness/libc own: 0x32 (MAP_FIXED), 0x20022 (MAP_STACK)
+    if odd:
+        ck.assume("NOTE (no verdict): anonymous mmaps with flags %s were issued in traced histories; HEAD's allocator maps with "
+                  "MAP_PRIVATE|MAP_ANONYMOUS (0x22) only - whether heap memory is private to the process is decided by the fork step" % ", ".join(odd))
     ck.extra["profiles"] = ["debug (debug_assert + invariant walker after every call)", "release"] + (["release under valgrind memcheck"] if nvg else [])
     ck.exhaustive = False
     ck.extra["refusal_position_exhaustive_on_short_histories"] = ck.counters.get("short_histories_with_refusal_at_every_op_index", 0) > 0
@@ -112,6 +148,8 @@ def run(ck, replay=None):
     ck.assume("'null required' is judged conservatively: a non-null result under refusal is refuted only when the request exceeds "
               "footprint - live bytes (it cannot have come from held memory) or the footprint grew; every non-null result is "
               "checked for alignment, disjointness, content like any other")
+    ck.assume("fork steps: the child is a plain fork(2) of the harness (own copy of the Dlmalloc struct), overwrites every live block, "
+              "frees/reallocs up to 64 of them, mallocs 48 more and leaves with _exit; the parent then re-reads every live block and runs the walker")
     ck.assume("blocks above 128 KiB carry the pattern on both 16 KiB edges and 64 bytes of every page, smaller ones on every byte")
     ck.assume("request sizes 1 byte .. 48 MiB plus impossible sizes (>= 2^47, null required); alignments 1 .. 8192; size 0 is outside "
               "the GlobalAlloc contract and not generated")
